@@ -198,7 +198,7 @@ func (n *node) tricky() bool {
 			s := strings.Trim(n.leaf, `"`)
 			return s == "" || strings.ContainsAny(s, "[]{},:#'%. ") || s == "1" || s == "true" || s == "null"
 		}
-		return strings.ContainsAny(n.leaf, "eE") || n.leaf == "-0" || len(n.leaf) > 9
+		return (n.leaf[0] == '-' || n.leaf[0] >= '0' && n.leaf[0] <= '9') && (strings.ContainsAny(n.leaf, "eE") || n.leaf == "-0" || len(n.leaf) > 9)
 	}
 	for i, k := range n.kids {
 		if k.tricky() {
@@ -285,7 +285,7 @@ func init() {
 			"(keys) single-pair objects over 16 keys x 36 leaves, and duplicate-key objects; (depth2) containers with <=2 children that are leaves or containers(<=2 children over 6 leaves); (depth3) three levels of nesting; " +
 			"thorough adds <=3 children at depth 2 over 10 leaves and <=2 children at all of 3 levels. Every document is printed in 4 layouts (compact, `, `/`: ` spaced, a space wherever JSON allows white space, one element per line) and run in-process as `v = %<text>`; " +
 			"the JSON text and the Go value that the variable table holds for v are compared (reflect.DeepEqual after json.Unmarshal) with encoding/json's decoding of the very same text. " +
-			"non-trivial = the document nests a container, or contains a string that looks like another type / like literal punctuation, or a number in exponent / -0 / >9-digit form, or is printed multi-line or padded",
+			"non-trivial = the document contains a string (value or key) that would change type or structure if its quotes were mishandled (empty, looks like a number/boolean/null, contains [ ] { } , : # ' % . or a space) or a number that is not in canonical form (exponent, -0, more than 9 digits)",
 		Run:    run,
 		Replay: replay,
 		Assumptions: []string{
@@ -313,7 +313,7 @@ func check(c *vlib.Ctx, text, section string, l layout, n *node, sampleIt bool) 
 	}
 	nt := true
 	if n != nil {
-		nt = n.depth() > 1 || n.tricky() || l == multiline || l == padded
+		nt = n.tricky()
 	}
 	c.Eval(nt, outcome)
 	if sampleIt {
